@@ -1,5 +1,6 @@
 import Hls.Proto
 import Hls.Muxer.Model
+import Hls.Muxer.ReqSpec
 /-! Model driver for the `muxer` correspondence stream (C01–C06 sequential, C18). -/
 open Hls.Proto Hls.Muxer
 
@@ -176,6 +177,22 @@ def optNat (w : Option String) : Option (Option Nat) :=
   | some "-" => some none
   | some v => (v.toNat?).map some
 
+inductive RelPart | absent | abs (n : Nat) | rel (k : Int)
+
+def relPart (w : String) : Option RelPart :=
+  if w = "-" then some .absent
+  else if w.startsWith "o" then ((w.drop 1).toString.toInt?).map .rel
+  else (w.toNat?).map .abs
+
+/-- extra query text of a `reqrel` op: the pairs `url.ParseQuery` yields for it and its error flag -/
+def qClass : String → Option (List (String × String) × Bool)
+  | "-" => some ([], true)
+  | "ok" => some ([("foo", "bar"), ("a", "2"), ("_HLS_x", "1")], true)
+  | "dup" => some ([("a", "2"), ("a", "1"), ("b", "3")], true)
+  | "esc" => some ([], false)
+  | "semi" => some ([], false)
+  | _ => none
+
 def step (s : St) (line : String) : St × List String :=
   match words line with
   | [] => (s, [])
@@ -231,6 +248,37 @@ def step (s : St) (line : String) : St × List String :=
       | .respond d => (s, [s!"req 200 {fmtPlaylist (mediaPlaylist st si d)}"])
     | some _, some _, _, _, _ => (s, ["req 400"])     -- unparsable number
     | _, _, _, _, _ => (s, ["bad-op"])
+  | "reqrel" :: ws =>
+    -- slice muxreq (C06): request relative to the live edge; see go/cmd/corr/muxer_reqrel.go
+    match s.st, kvNat ws "s", kvInt ws "dm", (kv ws "part").bind relPart, kv ws "skip", (kv ws "q").bind qClass with
+    | some st, some si, some dm, some part, some skip, some (extra, ok) =>
+      if st.cfg.variant ≠ .ll ∨ si ≥ st.streams.length then (s, ["bad-op"]) else
+      let sm := st.stream si
+      let has := sm.hasContent st.cfg.variant
+      let next : Nat := if has then sm.nextSegmentID else 7
+      let openN : Nat := if has then sm.openPartCount else 0
+      let M : Nat := (Int.ofNat next + dm).toNat
+      let P : Option Nat := match part with
+        | .absent => none
+        | .abs n => some n
+        | .rel k => some (Int.ofNat openN + k).toNat
+      let partS := match P with | some n => toString n | none => "-"
+      let head := s!"reqrel msn={M} part={partS} "
+      let sk := skip = "YES" || skip = "v2"
+      -- the query as url.ParseQuery returns it (malformed pairs dropped), then filterOutHLSParams
+      let pairs : List (String × String) :=
+        [("_HLS_msn", toString M)] ++ (match P with | some n => [("_HLS_part", toString n)] | none => []) ++
+        (if skip = "-" then [] else [("_HLS_skip", skip)]) ++ extra
+      let qs := match filterOutHLSParams (.parsed "?" pairs ok) with
+        | .pairs [] => "-"
+        | .pairs l => String.intercalate "&" (l.map fun (kv : String × String) => kv.1 ++ "=" ++ kv.2)
+        | .none => "-"
+        | .raw r => r
+      match reqDecision st si (some M) P sk with
+      | .bad400 => (s, [head ++ "400"])
+      | .wait => (s, [head ++ "wait"])
+      | .respond d => (s, [head ++ s!"200 {fmtPlaylist (mediaPlaylist st si d)} q={qs}"])
+    | _, _, _, _, _, _ => (s, ["bad-op"])
   | _ => (s, ["bad-op"])
 
 def main : IO Unit := runDriver step ({} : St)
